@@ -588,6 +588,34 @@ def loop_var_value_exact(prog, chk):
             continue
         chk.ob(ok, "A13.loop-var-exact", f"LoopElement:set_var#{n}", b.where(bb, t.get("line")), "the loop variable is set to to_string() of the f64 accumulator", f"the loop variable is not the accumulator's own rendering (it comes from {why}): with a step such as 0.0625 or 1e-5 the variable differs from start + k*step, so the loop no longer renders what its unrolling renders")
     chk.floor("A13.loop-var-exact", n, 1, "set_var in LoopElement")
+    # the accumulator itself: inside the loop it is only ever advanced by the step (`acc += step`); a value read back
+    # from elsewhere (the context's variable of that name, which the body may have changed) is another counter
+    accs = set()
+    for (bb, t, c) in b.call_sites(R.path_is(SETVAR)):
+        if len(t["args"]) < 3:
+            continue
+        o = R.origin(b, t["args"][2], carriers={"deref": 0, "as_str": 0, "borrow": 0})
+        if o[0] == "call" and "fn" in o[2] and Callee(o[2]["fn"]).decl_path == "std::string::ToString::to_string":
+            src = R.origin_local(b, o[2]["args"][0])
+            if src is not None and (b.local_ty(src) or "").strip() == "f64":
+                accs.add(src)
+    for acc in sorted(accs):
+        foreign = []
+        for d in b.defs_of(acc):
+            blk, idx, node = d
+            if R.loop_containing(b, blk) is None:
+                continue  # the start value, parsed before the loop
+            if idx != R.TERM and node.get("k") == "binop" and node.get("op") in ("Add", "Sub") and (R.origin_local(b, node["a"]) == acc or (op_place(node["a"]) or (None,))[0] == acc):
+                continue
+            if idx != R.TERM and node.get("k") == "use":
+                # through a temporary: acc = tmp, tmp = acc + step
+                pl = op_place(node.get("op"))
+                d2 = b.single_def(pl[0]) if pl is not None and not pl[1] else None
+                if d2 and d2[1] != R.TERM and d2[2].get("k") == "binop" and d2[2].get("op") in ("Add", "Sub") and (op_place(d2[2]["a"]) or (None,))[0] == acc:
+                    continue
+            foreign.append(b.where(blk))
+        name = b.local_name(acc) or f"_{acc}"
+        chk.ob(not foreign, "A13.loop-var-exact", f"LoopElement:{name}:advance", b.where(), f"inside the loop `{name}` is only advanced by the step", f"inside the loop the accumulator `{name}` is also assigned from something other than itself plus the step ({', '.join(foreign[:2])}): the value of pass k is no longer start + k*step whenever that other source differs (a body that changes the variable of the same name changes the loop)")
 
 
 FOR_ITEM_CALLEES_OK = ("clone", "push", "extend", "to_string_vec", "fstr", "new", "into_iter", "next", "iter", "deref", "with_capacity", "into_vec", "exchange_malloc", "from", "drop", "box_new", "write_via_move")
